@@ -39,6 +39,13 @@ Theorem K_reset_and_detached :
 Proof. intros. repeat split; reflexivity. Qed.
 Print Assumptions K_reset_and_detached.
 
+Theorem K_attach :
+  forall len succ ix ca : nat,
+  run (g_attach (mkE succ len)) (mkL ix ca) = Some (tt, mkL ix ca, [ix]) /\
+  run (g_attach_async (mkE succ len)) (mkL ix ca) = Some (tt, mkL ix ca, [ix]).
+Proof. intros. apply tie_attach. Qed.
+Print Assumptions K_attach.
+
 Theorem K_go_back :
   forall len succ ix ca n : nat, ix < len -> succ < len -> len + len < usize_max -> n <= len -> ca + n < usize_max ->
   run (g_go_back (mkE succ len) n) (mkL ix ca) = Some (tt, mkL (wsub len ix n) (ca + n), []) /\
